@@ -154,6 +154,10 @@ def verify_strat_allocate_proxy(ex, contract, timeout_ms=30000):
     return verify_strat_allocate(ex, contract, timeout_ms=timeout_ms)
 
 
+def _verify_strat_transact(ex, contract, timeout_ms=30000):
+    return verify_strat_transact(ex, contract, timeout_ms)
+
+
 def _verify_close(ex, contract, timeout_ms=30000):
     return verify_close(ex, contract, timeout_ms)
 
@@ -169,7 +173,7 @@ def contracts():
         (RelationalContract("bt.core.StrategyBase._create_child_if_needed", [("child", "str")], apply_create_child, self_cls="StrategyBase", note="ensures the named child exists; a newly attached lazy child is a flat security with weight 0"), _verify_create_child),
                 (RelationalContract("bt.core.StrategyBase.close", [("child", "str"), ("update", "bool")], apply_close, self_cls="StrategyBase", note="modifies the child's subtree, own cash/fees, root.stale; body verified by verify_close"), _verify_close),
         (RelationalContract("bt.core.StrategyBase.allocate", [("amount", "float"), ("child", "optstr"), ("update", "bool")], apply_strat_alloc, self_cls="StrategyBase", note="parent debited / self credited once (flow only for self), each child receives amount x weight with update=False; see verify_strat_allocate"), verify_strat_allocate_proxy),
-        (RelationalContract("bt.core.StrategyBase.transact", [("q", "float"), ("child", "any"), ("update", "bool")], apply_strat_transact, self_cls="StrategyBase", note="modifies own subtree and the parent's cash"), None),
+        (RelationalContract("bt.core.StrategyBase.transact", [("q", "float"), ("child", "optstr"), ("update", "bool")], apply_strat_transact, self_cls="StrategyBase", note="modifies own subtree and the parent's cash; body verified by verify_strat_transact"), _verify_strat_transact),
         (RelationalContract("bt.core.StrategyBase.rebalance", [("weight", "float"), ("child", "str"), ("base", "float"), ("update", "bool")], _apply_rebalance_proxy, self_cls="StrategyBase", note="see verify_rebalance"), verify_rebalance),
     ]
 
@@ -590,6 +594,94 @@ def verify_close(ex, contract, timeout_ms=30000):
                 if map_same(a, b):
                     continue
                 ob("frame:%s%s" % (key, ("[" + ",".join(names) + "]") if __import__("os").environ.get("DBG_CLOSE") else ""), Implies(outside, a.select(x) == b.select(x)), ("C08", "C11"))
+        s = z3.Solver()
+        for p in st0.pc:
+            s.add(p)
+        fr.canary = str(s.check())
+        discharge(obligs, timeout_ms, fr, contract.qualname)
+        fr.stats = dict(feas_queries=ex.stats.feas_queries, feas_s=round(ex.stats.feas_time, 3), inlined=sorted(ex.stats.inlined), contracts_used=sorted(ex.stats.contracts_used))
+    except Undecided as e:
+        fr.undecided = str(e)
+    except Exception as e:
+        fr.undecided = "ENGINE-ERROR: %s\n%s" % (e, traceback.format_exc())
+    return fr
+
+
+# ------------------------------------------------------------------ StrategyBase.transact (body)
+def _stx_inv(ctx):
+    st, E = ctx.cur, ctx.entry.heap
+    self = ctx.entry.locals["self"]
+    q = ctx.entry.locals["q"]
+    out = []
+    rt = st.heap.get(self, "root")
+    out.append(("stale-flag-untouched-by-children", st.heap.get(rt, "stale") == E.get(rt, "stale")))
+    if ctx.phase == "step":
+        ih = ctx.i - 1
+        c = E.list_at(self, "_childrenv", ih)
+        new = [x for x in st.log[len(ctx.head.log):] if len(x) in (3, 4) and x[0].endswith(".transact")]
+        out.append(("each-child-transacts-exactly-once", len(new) == 1))
+        if len(new) == 1:
+            a = new[0][2]
+            out.append(("child-receives-q-times-its-weight", And(new[0][1].term == c.term, value_same(a[0], q * E.get(c, "_weight")))))
+            upd = a[1] if new[0][0].endswith("SecurityBase.transact") else a[2]
+            out.append(("children-transact-without-update", upd is False or (upd is not True and Not(upd))))
+    return out
+
+
+LOOPS[("bt.core.StrategyBase.transact", 0)] = LoopSpec(_stx_inv, havoc_heap=_salloc_havoc, on_iter=_flat_on_iter, name="push the notional down by child weight")
+
+
+def verify_strat_transact(ex, contract, timeout_ms=30000):
+    """StrategyBase.transact(q, child, update): with a child name - the child is created if needed and then transacts exactly q (the name's own
+    node, quantity unchanged), nothing else is called; without - every child transacts q x its weight with update deferred and the root is marked
+    stale iff update."""
+    from pyvc.verify import FuncReport, discharge, entry_state
+    from pyvc.heap import Opt, StrV as _StrV
+
+    fr = FuncReport(contract.qualname)
+    name = "StrategyBase.transact"
+    PT = ("C20", "C17", "C06")
+    try:
+        fi = ex.prog.func(contract.qualname)
+        fr.source_hash = fi.source_hash()
+        st0, self, args = entry_state(ex, contract)
+        q, child, update = args
+        E = st0.heap
+        for f in self_facts(E, self):
+            st0.assume(_zb(f))
+        st0.assume(_zb(Not(isnan(q))))
+        E = st0.heap.copy()
+        st0.ghost["schemas"] = [children_schema(E, self), ForallInt(0, E.list_len(self, "_childrenv"), lambda j: _I_child(E, self, j), name="ji")]
+        t0 = time.time()
+        exits = ex.run_function(fi, st0.fork(), self, args)
+        fr.symexec_s = time.time() - t0
+        fr.paths = len(exits)
+        obligs = []
+        rt = E.get(self, "root")
+        given = Not(child.isnone) if isinstance(child, Opt) else (child is not NONEV)
+        for xi, (st, oc) in enumerate(exits):
+            kind = oc.kind if oc.kind != "raise" else "raise:" + oc.exc
+            fr.exits[kind] = fr.exits.get(kind, 0) + 1
+            obligs.extend(st.obligs)
+            if oc.kind == "raise":
+                continue
+            F = st.heap
+            calls = [c for c in st.log if len(c) in (3, 4)]
+            names = [c[0].rsplit(".", 1)[1] for c in calls]
+
+            def ob(cid, goal):
+                obligs.append(Oblig("%s/%s" % (name, cid), st.pc, goal, "post", PT))
+
+            cname = child.val if isinstance(child, Opt) else child
+            if names[:1] == ["_create_child_if_needed"]:
+                ob("named-child:create-if-needed-then-one-transact-of-exactly-q", And(_zb(given), names == ["_create_child_if_needed", "transact"] or names == ["_create_child_if_needed", "transact", "transact"]))
+                if len(calls) >= 2:
+                    trg = named_child(calls[1][3] if len(calls[1]) == 4 else F, self, cname)
+                    ob("named-child:the-transact-is-on-the-node-registered-under-that-name-with-q-unchanged", And(calls[0][2][0].term == cname.term, calls[1][1].term == trg.term, value_same(calls[1][2][0], q)))
+            else:
+                ob("no-name:children-loop-path-only-without-a-child-name", Not(_zb(given)))
+                upd = update if not isinstance(update, bool) else z3.BoolVal(update)
+                ob("no-name:root-marked-stale-iff-update", F.get(rt, "stale") == Or(E.get(rt, "stale"), upd))
         s = z3.Solver()
         for p in st0.pc:
             s.add(p)
